@@ -20,8 +20,8 @@ Definition join_begin (j : joinspec) (l r : tree) : result bop' :=
                else if negb (bool_decide (j_min j ⊆ columns r)) then Err ColumnError
                else Ok (j_min j)
              else common_columns j (columns l) (columns r));
-    if is_join_identity l then Ok (BIgnore true)
-    else if is_join_identity r then Ok (BIgnore false)
+    if bool_decide (as_trivial (j_pred j) = Some true) && is_join_identity l then Ok (BIgnore true)
+    else if bool_decide (as_trivial (j_pred j) = Some true) && is_join_identity r then Ok (BIgnore false)
     else Ok (BJoin (j_pred j) c).
 
 (* engines *)
